@@ -74,3 +74,49 @@ def rand_molecular_hamiltonian(rng, M, const=True):
     one, two = spinorb_from_spatial(h1, h2)
     iop = InteractionOperator(rng.uniform(-1, 1) if const else 0.0, one, 0.5 * two)
     return get_fermion_operator(iop)
+
+
+# ---------------------------------------------------------------------------------------------- sparse variants
+def ladder_sparse(n):
+    """[a_0 .. a_{n-1}] as scipy csr matrices (same conventions as `ladder`)"""
+    import scipy.sparse as sp
+    out = []
+    dim = 2 ** n
+    for j in range(n):
+        rows, cols, vals = [], [], []
+        for x in range(dim):
+            if (x >> j) & 1:
+                rows.append(x & ~(1 << j))
+                cols.append(x)
+                vals.append((-1) ** bin(x & ((1 << j) - 1)).count("1"))
+        out.append(sp.csr_matrix((vals, (rows, cols)), shape=(dim, dim), dtype=complex))
+    return out
+
+
+def fermion_matrix_sparse(fop, n, lad=None):
+    import scipy.sparse as sp
+    dim = 2 ** n
+    lad = lad or ladder_sparse(n)
+    lad_d = [a.conj().T.tocsr() for a in lad]
+    M = sp.csr_matrix((dim, dim), dtype=complex)
+    for term, c in fop.terms.items():
+        if abs(c) < 1e-14:
+            continue
+        T = sp.identity(dim, dtype=complex, format="csr")
+        for j, d in term:
+            T = T @ (lad_d[j] if d else lad[j])
+        M = M + c * T
+    return M
+
+
+def qubit_diag_element(qop, x):
+    """<x| qop |x> for a computational basis state (bit q of x = qubit q): only I/Z words contribute"""
+    tot = 0
+    for w, c in qop.terms.items():
+        if all(l == "Z" for _, l in w):
+            s = 1
+            for q, _ in w:
+                if (x >> q) & 1:
+                    s = -s
+            tot += c * s
+    return tot
